@@ -259,7 +259,7 @@ uint64_t Avtp_Vss_GetMsgTimestamp(Avtp_Vss_t* pdu);
 void Avtp_Vss_GetVssPath(Avtp_Vss_t* pdu, VssPath_t* val);
 void Avtp_Vss_GetVssData(Avtp_Vss_t* pdu, VssData_t* val);
 uint16_t Avtp_Vss_GetVSSDataStringArrayLength(VssDataStringArray_t* str_array);
-uint16_t Avtp_Vss_CalcVssPathLength (Avtp_Vss_t* pdu);
+uint32_t Avtp_Vss_CalcVssPathLength (Avtp_Vss_t* pdu);
 void Avtp_Vss_DeserializeStringArray(VssDataStringArray_t* vss_data_string_array,
                                      VssDataString_t* strings[],
                                      uint16_t num_strings);
